@@ -21,7 +21,7 @@ Definition op_reasons (o : op) (r : res value) (s : store) : Z :=
   match o with
   | OInsertOne (VDoc fs) =>
       match assoc "_id" fs with
-      | Some i => Z.lor (if is_ok r && negb (value_eqb (patch i) i) then 1 else 0) (wf_reason i)
+      | Some i => wf_reason i
       | None => 0
       end
   | OFind (VDoc [("_id", v)]) None [] 0 0 =>
@@ -145,6 +145,11 @@ Proof.
   unfold has_id. rewrite existsb_app. simpl. rewrite bson_eq_refl. apply orb_true_r.
 Qed.
 
+Lemma has_id_last_patch s i d : has_id (s ++ [(patch i, d)]) i = true.
+Proof.
+  unfold has_id. rewrite existsb_app. simpl. rewrite patch_idem, bson_eq_refl. apply orb_true_r.
+Qed.
+
 Lemma has_id_arr s i : Strong s -> is_arr i = true -> has_id s i = false.
 Proof.
   intros HS Hi. unfold has_id. apply existsb_all_false. intros kd Hin.
@@ -165,7 +170,7 @@ Definition insert_part (before after : store) (fs : list (string * value)) (r : 
       negb (has_id before i) && has_id after i
       && Nat.eqb (List.length after) (S (List.length before))
   | Some i, Ok (VDoc [("inserted_id", j)]) =>
-      negb (has_id before i) && value_eqb i j && has_id after i
+      negb (has_id before i) && value_eqb (patch i) j && has_id after i
   | Some i, Err e =>
       if has_id before i then err_eqb e EDup && store_eqb before after else true
   | None, Err _ => true
@@ -177,10 +182,10 @@ Lemma c05_step_insert x fs r after info :
   inv_id after && insert_part (x_store x) after fs r.
 Proof. reflexivity. Qed.
 
-Lemma insert_part_ok_some before after fs i :
+Lemma insert_part_ok_some before after fs i j :
   assoc "_id" fs = Some i ->
-  insert_part before after fs (Ok (VDoc [("inserted_id", i)])) =
-  negb (has_id before i) && value_eqb i i && has_id after i.
+  insert_part before after fs (Ok (VDoc [("inserted_id", j)])) =
+  negb (has_id before i) && value_eqb (patch i) j && has_id after i.
 Proof. intros E. unfold insert_part. rewrite E. reflexivity. Qed.
 
 Lemma insert_part_ok_none before after fs i :
@@ -203,27 +208,22 @@ Proof. intros E. unfold insert_part. rewrite E. reflexivity. Qed.
 Lemma insert_step c fs c' r :
   Inv c -> Strong (docs c) ->
   insert_one c (VDoc fs) = (c', r) ->
-  match assoc "_id" fs with
-  | Some i => is_ok r = true -> patch i = i
-  | None => True
-  end ->
   insert_part (docs c) (docs c') fs r = true.
 Proof.
   intros HI HS. unfold insert_one.
   destruct (insert_doc c (VDoc fs)) as [c1 r1] eqn:E. intros H. injection H as <- <-.
   pose proof (insert_doc_spec c fs c1 r1 (proj2 HI) E) as Hs. cbv zeta in Hs.
   destruct Hs as [_ Hs]. unfold ins_id in Hs.
-  destruct (assoc "_id" fs) as [i|] eqn:Ea; intros Hg.
+  destruct (assoc "_id" fs) as [i|] eqn:Ea.
   - destruct Hs as [[Hm [Hd [e [-> _]]]]|[[Hm [[x Hx] [Hd ->]]]|[[Hm [Hn [Hd ->]]]|[Hm [Hn [Hd [e ->]]]]]]];
       cbn [bind] in *.
     + rewrite (insert_part_err_some _ _ _ _ _ Ea).
       rewrite (has_id_unmodelled _ _ (proj2 (proj2 (proj1 HI))) Hm). reflexivity.
     + rewrite (insert_part_err_some _ _ _ _ _ Ea). rewrite Hd, store_eqb_refl.
       destruct (has_id (docs c) i); reflexivity.
-    + pose proof (Hg eq_refl) as Hp. rewrite Hp in *.
-      rewrite (insert_part_ok_some _ _ _ _ Ea).
-      rewrite (has_id_none _ i HS) by (rewrite Hp; exact Hn).
-      rewrite value_eqb_refl, Hd, has_id_last. reflexivity.
+    + rewrite (insert_part_ok_some _ _ _ _ _ Ea).
+      rewrite (has_id_none _ i HS Hn).
+      rewrite value_eqb_refl, Hd, has_id_last_patch. reflexivity.
     + rewrite (insert_part_err_some _ _ _ _ _ Ea).
       rewrite (has_id_none _ _ HS Hn). reflexivity.
   - destruct Hs as [[Hm _]|[[Hm [[x Hx] [Hd ->]]]|[[Hm [Hn [Hd ->]]]|[Hm [Hn [Hd [e ->]]]]]]];
@@ -467,11 +467,7 @@ Proof.
   - (* insert_one *)
     destruct d as [| | | | | | |fs|]; try (unfold c05_step; rewrite Hinv; reflexivity).
     rewrite c05_step_insert, Hinv, Hx. cbn [andb].
-    eapply insert_step; [exact HI|exact HS|exact Hstep|].
-    cbn [op_reasons] in Hop. destruct (assoc "_id" fs) as [i|]; [|exact I].
-    apply Z.lor_eq_0_iff in Hop. destruct Hop as [H1 _].
-    intros Hok. rewrite Hok in H1. cbn [andb] in H1.
-    destruct (value_eqb (patch i) i) eqn:Ev; [apply value_eqb_eq; exact Ev|discriminate H1].
+    eapply insert_step; [exact HI|exact HS|exact Hstep].
   - (* update *)
     apply update_op_spec in Hstep; [|exact (proj2 HI)].
     change (c05_step x (OUpdate f u multi upsert) (r, docs c', info))
